@@ -21,6 +21,26 @@ var propC13 = evid.Prop[RateCase]{
 
 func TestC13(t *testing.T) { evid.Run(t, propC13) }
 
+// TestC13Conc : the same oracle while 2..8 goroutines convert rates concurrently.
+func TestC13Conc(t *testing.T) {
+	evid.Run(t, evid.Prop[RateConc]{
+		ID:   "C13",
+		Rule: "2..8 goroutines, each repeating (10..200 rounds) its own list of 1..6 generated (Interval, Quantity, minimum) triples through Recalculate/Optimize/Flatten at the same time, every result checked against the math/big oracle; non-trivial = at least one case of some goroutine takes the quantity branch; distinct = distinct case JSON",
+		Gen:  GenRateConc,
+		Run: func(c RateConc) evid.Outcome {
+			nt := false
+			for _, w := range c.Workers {
+				for _, rc := range w {
+					if rc.I > 0 && rc.Q > 0 && rc.Min > 0 && uint64(rc.I)/rc.Q < uint64(rc.Min) {
+						nt = true
+					}
+				}
+			}
+			return evid.Outcome{Err: CheckRateConc(c), NonTrivial: nt, Classes: []string{"concurrent"}, Summary: "see script"}
+		},
+	})
+}
+
 // FuzzC13 drives the same property with the coverage-guided native fuzzer (thorough tier).
 func FuzzC13(f *testing.F) {
 	f.Add(int64(20000001), uint64(2), int64(10000000))
